@@ -108,6 +108,33 @@ MUTANTS = [
     ('C19', 'positional-skips-referential-slot', 'xtuml/meta.py',
      "        for attr, value in zip(self.attributes, args):",
      "        for attr, value in zip([a for a in self.attributes if a[0] not in self.referential_attributes], args):"),
+    ('C01', 'no-quote-escape', 'xtuml/persist.py',
+     '''lambda v: "'%s'" % v.replace("'", "''"),''', '''lambda v: "'%s'" % v,'''),
+    ('C01', 'real-g-format', 'xtuml/persist.py', "lambda v: '%f' % v,", "lambda v: '%g' % v,"),
+    ('C01', 'persist-ids-skip-last-class', 'xtuml/persist.py',
+     "        for metaclass in metamodel.metaclasses.values():\n            for index_name",
+     "        for metaclass in list(metamodel.metaclasses.values())[:-1]:\n            for index_name"),
+    ('C01', 'assoc-phrases-swapped', 'xtuml/persist.py',
+     "    if ass.target_link.phrase:\n        s1 += \" PHRASE '%s'\" % ass.target_link.phrase",
+     "    if ass.target_link.phrase:\n        s1 += \" PHRASE '%s'\" % ass.source_link.phrase"),
+    ('C01', 'string-regex-no-doubled-quote', 'xtuml/load.py',
+     "        r'\\'((\\'\\')|[^\\'])*\\''\n        t.lexer.lineno += (t.value.count(\"\\n\"))",
+     "        r'\\'([^\\'])*\\''\n        t.lexer.lineno += (t.value.count(\"\\n\"))"),
+    ('C01', 'negative-drops-sign', 'xtuml/load.py', "        p[0] = p[1] + p[2]", "        p[0] = p[2]"),
+    ('C01', 'boolean-digit-branch-removed', 'xtuml/load.py',
+     "        if value.isdigit():\n            return bool(int(value))\n        elif", "        if"),
+    ('C01', 'persist-schema-cardinality-swap', 'xtuml/persist.py',
+     "    s2 = '%s %s (%s)' % (ass.target_link.cardinality,", "    s2 = '%s %s (%s)' % (ass.source_link.cardinality,"),
+    ('C01', 'unset-real-as-empty', 'xtuml/persist.py',
+     "    if value is None:\n        value = null_value[ty]", "    if value is None and ty != 'REAL':\n        value = null_value[ty]"),
+    ('C01', 'persist-instances-reversed', 'xtuml/persist.py',
+     "        for inst in metamodel.instances:\n            s = serialize_instance(inst)\n            f.write(s)\n\n\ndef persist_schema",
+     "        for inst in reversed(list(metamodel.instances)):\n            s = serialize_instance(inst)\n            f.write(s)\n\n\ndef persist_schema"),
+    ('C01', 'uuid-lexed-nongreedy-break', 'xtuml/load.py',
+     "            return uuid.UUID(value[1:-1]).int\n        else:\n            return int(value)\n\n    ",
+     "            return uuid.UUID(value[1:-1]).int & (2 ** 127 - 1)\n        else:\n            return int(value)\n\n    "),
+    ('C01', 'newline-translation-back', 'xtuml/load.py',
+     "        with open(filename, 'r', newline='') as f:", "        with open(filename, 'r') as f:"),
 ]
 
 
